@@ -59,12 +59,28 @@ type Tree struct {
 	GetCheck      bool                   `json:"get_check"`
 	LogYield      bool                   `json:"log_yield"`
 	Reuse         bool                   `json:"reuse,omitempty"` // the server keeps one live object per key and mutates it in place
+	ZeroPeriod    bool                   `json:"zero_period,omitempty"`    // the refresh period handed to the builder is ZeroPeriodNs (0 or negative); PeriodMs is 1 for the bookkeeping
+	ZeroPeriodNs  int64                  `json:"zero_period_ns,omitempty"`
+	EmptyListRV   bool                   `json:"empty_list_rv,omitempty"`
 	BaseRV        int                    `json:"base_rv,omitempty"`
 	ShareHB       bool                   `json:"share_hb,omitempty"` // monitors' handlers come from one reused HandlerBuilder
 	Sim           SimCfg                 `json:"sim"`
 }
 
+// cycle: the refresh period as a length of time (a zero or negative period means "at once")
+func (sc *Tree) cycle() time.Duration {
+	if p := sc.period(); p > 0 {
+		return p
+	}
+	return 0
+}
+
 func (sc *Tree) period() time.Duration {
+	if sc.ZeroPeriod {
+		// RefreshPeriod(0), or a negative one: the library relists back to back
+		// (every list takes simulated time in these runs)
+		return time.Duration(sc.ZeroPeriodNs)
+	}
 	if sc.PeriodMs <= 0 {
 		return noRelist
 	}
@@ -126,6 +142,7 @@ func runTree(sci interface{}) {
 	srv := world.NewServer("pod")
 	srv.SetBaseRV(sc.BaseRV)
 	srv.Reuse = sc.Reuse
+	srv.EmptyListRV = sc.EmptyListRV
 	srv.F = world.NewFaults(sc.Faults)
 	for k, v := range sc.ListScript {
 		n := 0
@@ -247,6 +264,12 @@ func (t *treeRun) act(a TAct) {
 		srv.Apply(world.Spec{NS: a.NS, Name: a.Name, Labels: a.Labels})
 	case "delete":
 		srv.Delete(a.NS + "/" + a.Name)
+	case "bulk":
+		// hundreds of objects appear (or change) at once
+		for i := 0; i < a.Ms; i++ {
+			srv.Apply(world.Spec{NS: "n1", Name: "bulk" + itoa(i), Labels: map[string]string{"app": "a"}})
+		}
+		detsim.Count("probe:bulk-write")
 	case "sleep":
 		time.Sleep(ms(a.Ms))
 	case "settle":
@@ -457,7 +480,7 @@ func (t *treeRun) finalChecks() {
 		if sc.PeriodMs <= 0 {
 			waitQuiet(recoveryBound, func() bool { return t.rootDown() || h.WatchLossPossible() || rootInSync(h) })
 		} else {
-			time.Sleep(sc.period()*3 + ms(sc.ListLatMs[0]+sc.ListLatMs[1])*2 + 2*time.Second)
+			time.Sleep(sc.cycle()*3 + ms(sc.ListLatMs[0]+sc.ListLatMs[1])*2 + 2*time.Second)
 		}
 		detsim.Settle()
 		if (!h.WatchLossPossible() || sc.PeriodMs > 0) && !t.rootDown() {
@@ -506,7 +529,7 @@ func (t *treeRun) finalChecks() {
 // report the cause, and (if it was the first list) never become ready.
 func (t *treeRun) listFailureChecks() {
 	h, sc, srv := t.h, t.sc, t.srv
-	per := sc.period()
+	per := sc.cycle()
 	lat := ms(sc.ListLatMs[0] + sc.ListLatMs[1])
 	bound := time.Duration(t.failAt+1)*(per+per/5+lat) + 2*time.Second
 	if t.trigRoot {
